@@ -638,6 +638,13 @@ char *macros_expand_params(
 
     if (ch == '\\' && (in_string || in_ticks))
     {
+      // Escaped pairs count against the buffer like everything else.
+      if (ptr >= (int)sizeof(params) - 4)
+      {
+        print_error(asm_context, "Macro parameters too long");
+        return nullptr;
+      }
+
       params[ptr++] = ch;
       ch = tokens_get_char(asm_context);
       params[ptr++] = ch;
